@@ -128,6 +128,7 @@ def build_go():
 
 
 def regen_tables():
+    os.makedirs(os.path.join(COQ, "Gen"), exist_ok=True)
     rc, out = sh([os.path.join(BUILD, "gotables"), REPO, os.path.join(COQ, "Gen")], timeout=120)
     if rc != 0:
         raise BuildError("gotables (translator could not read the Go tables)", out)
@@ -341,6 +342,50 @@ class Ctx:
         if rc2 != 0:
             raise BuildError("modelrun failed on kind %s" % kind, e2[-2000:])
         return o2
+
+
+def coq_term(v):
+    """python sx value (int | bytes | list) -> Coq term of type sx"""
+    if isinstance(v, bool):
+        v = int(v)
+    if isinstance(v, int):
+        return "SI (%d)%%Z" % v
+    if isinstance(v, (bytes, bytearray)):
+        return "SB [%s]%%N" % ";".join(str(c) for c in v)
+    return "SL [%s]" % "; ".join(coq_term(e) for e in v)
+
+
+def kernel_crosscheck(ctx, cases, maxn=120, maxlen=1500):
+    """Cross-check extraction with the kernel's evaluator: a sample of (kind, arg text, model output text)
+    is re-evaluated inside Coq with vm_compute (Extract/Cases.run_case) and must give the outputs the
+    extracted OCaml model gave."""
+    sample, budget = [], 40000
+    for c in cases:
+        if len(c[1]) < maxlen and len(c[2]) < maxlen and len(sample) < maxn:
+            budget -= len(c[1]) + len(c[2])
+            if budget < 0:
+                break
+            sample.append(c)
+    if not sample:
+        return
+    os.makedirs(os.path.join(COQ, "Cases"), exist_ok=True)
+    path = os.path.join(COQ, "Cases", "cases_%s.v" % ctx.pid)
+    with open(path, "w") as f:
+        f.write("(* written by harness/lib.py for this run: in-kernel cross-check of the extracted model *)\n")
+        f.write("From DepsDev Require Import Lib.Base Lib.Sx Extract.Cases.\n")
+        f.write("Definition cases : list (bytes * sx * sx) := [\n")
+        rows = []
+        for kind, a, out in sample:
+            rows.append("  ([%s]%%N, %s, %s)" % (";".join(str(c) for c in kind.encode()), coq_term(parse_sx(a)), coq_term(parse_sx(out))))
+        f.write(";\n".join(rows))
+        f.write("].\nDefinition M := Eval vm_compute in mismatches_from run_case cases 0.\nPrint M.\n")
+    rc, out = sh(["coqc", "-Q", ".", "DepsDev", "-w", "-notation-overridden", "Cases/cases_%s.v" % ctx.pid], cwd=COQ, timeout=900)
+    ctx.count("kernel_crosscheck:cases", len(sample))
+    ok = rc == 0 and re.search(r"M\s*=\s*\[\]", out.replace("\n", " ")) is not None
+    if not ok:
+        ctx.divergence("kernel-vs-extraction", "Cases/cases_%s.v" % ctx.pid, "vm_compute result", out[-800:])
+    else:
+        ctx.notes.append("in-kernel vm_compute re-evaluation of %d cases agrees with the extracted model" % len(sample))
 
 
 def load_known(pid):
